@@ -1,4 +1,5 @@
 import FpgoVerif.Proofs.C08Lin
+import FpgoVerif.Proofs.C08OverLLQ
 import FpgoVerif.Gen.LockModes
 import FpgoVerif.Gen.Skeletons
 /-! Property theorems for C08 — ConcurrentQueue / ConcurrentStack are linearizable over any wrapped
@@ -224,6 +225,107 @@ example : (run (boundedQueueSys 1) (initState (boundedQueueSys 1))
       [.inv 0 (.offer 1), .acq 0, .read 0, .commit 0, .rel 0, .inv 1 (.put 2), .acq 1, .read 1, .commit 1, .rel 1,
        .inv 2 .poll, .acq 2, .read 2, .commit 2, .rel 2, .inv 1 (.put 2), .acq 1, .read 1, .commit 1, .rel 1]).map
       (fun s => (s.done.map (·.ret), s.obj)) = some ([.nil, .full, .ok 1, .nil], [2]) := by decide
+
+/-! ### over the POINTER-LEVEL LinkedListQueue (C06 imported, not assumed)
+
+    `llqQueueSys pick` / `llqStackSys pick` are the generic concurrent system with σ := `C06.Q` (the heap of
+    doubly linked nodes with first/last/count and the free list), apply := `C06.step` (the statement-by-statement
+    model of Offer / Shift / Pop that C06 proves correct), Ret := `C06.Obs` (which HAS `panic` and `hang`), `pick` =
+    any behaviour of sync.Pool.Get.  The theorems compose `C08_linearizable` (this file) with `C06_step_refines` /
+    `abs_init` (C06): nothing about LinkedListQueue is assumed any more. -/
+
+/-- **ConcurrentQueue over the real LinkedListQueue.**  In every reachable state (any threads, any interleaving):
+    (a) the returns in linearization order are exactly the ideal FIFO deque's sequential returns, and the
+        linearization order is the lock-acquisition order; every completed call took effect between its
+        invocation and response and returned its entry of that run;
+    (b) no call returns `panic` (nil dereference) or `hang` (runaway loop), and the heap satisfies C06's
+        representation invariant for the ideal content — consistent forward/backward links, `count` = length,
+        disjoint zeroed free list — in EVERY reachable state, including while calls are in flight: the wrapped
+        structure is never corrupted;
+    (c) hence FIFO conservation: removed ++ content = offered. -/
+theorem C08_over_linkedListQueue (pick : Nat → Nat) (s : State C06.Q QOp C06.Obs) (h : Reach (llqQueueSys pick) s) :
+    s.lin.map (·.ret) = (seqRun qApply [] (s.lin.map (·.op))).2.map obsOfRet ∧
+    (s.acqs = s.lin.map (·.t) ∨ ∃ t, precommit (s.pc t) ∧ s.acqs = s.lin.map (·.t) ++ [t]) ∧
+    (∀ d ∈ s.done, d.invAt < d.linAt ∧ d.linAt < d.retAt ∧ (⟨d.t, d.op, d.ret, d.linAt⟩ : LinE QOp C06.Obs) ∈ s.lin ∧
+      d.ret ≠ .panic ∧ d.ret ≠ .hang) ∧
+    (∀ e ∈ s.lin, e.ret ≠ .panic ∧ e.ret ≠ .hang) ∧
+    (∃ chain pool, C06.Rep s.obj (seqRun qApply [] (s.lin.map (·.op))).1 chain pool) ∧
+    okVals (seqRun qApply [] (s.lin.map (·.op))).2 ++ (seqRun qApply [] (s.lin.map (·.op))).1 = offered (s.lin.map (·.op)) := by
+  have hx := llqQueueSys_excl pick
+  obtain ⟨hseq, _, hdone⟩ := C08_linearizable (llqQueueSys pick) hx s h
+  obtain ⟨hr, spare, chain, pool, hrep, _⟩ := llq_seq llqOpQ qApply spec_q pick (s.lin.map (·.op))
+  have e1 : (llqQueueSys pick).apply = fun q op => C06.step q (llqOpQ op) := rfl
+  have e2 : (llqQueueSys pick).init = C06.initWith pick := rfl
+  rw [e1, e2] at hseq
+  rw [hseq] at hr hrep
+  simp only at hr hrep
+  have hlin : ∀ e ∈ s.lin, e.ret ≠ .panic ∧ e.ret ≠ .hang := by
+    intro e he
+    have : e.ret ∈ s.lin.map (·.ret) := List.mem_map.mpr ⟨e, he, rfl⟩
+    rw [hr] at this
+    obtain ⟨r, _, hre⟩ := List.mem_map.mp this
+    rw [← hre]; exact obsOfRet_ne r
+  refine ⟨hr, C08_lin_is_acquisition_order (llqQueueSys pick) hx s h, ?_, hlin, ⟨chain, pool, hrep⟩, ?_⟩
+  · intro d hd
+    obtain ⟨a, b, c⟩ := hdone d hd
+    have := hlin _ c
+    exact ⟨a, b, c, this.1, this.2⟩
+  · simpa using queue_conservation (s.lin.map (·.op)) []
+
+/-- **ConcurrentStack over the real LinkedListQueue** (Push = Offer at the tail, Pop from the tail): the same
+    four clauses against the ideal LIFO stack `sApply`, with conservation popped ++ content ~ pushed. -/
+theorem C08_over_linkedListQueue_stack (pick : Nat → Nat) (s : State C06.Q SOp C06.Obs) (h : Reach (llqStackSys pick) s) :
+    s.lin.map (·.ret) = (seqRun sApply [] (s.lin.map (·.op))).2.map obsOfRet ∧
+    (s.acqs = s.lin.map (·.t) ∨ ∃ t, precommit (s.pc t) ∧ s.acqs = s.lin.map (·.t) ++ [t]) ∧
+    (∀ d ∈ s.done, d.invAt < d.linAt ∧ d.linAt < d.retAt ∧ (⟨d.t, d.op, d.ret, d.linAt⟩ : LinE SOp C06.Obs) ∈ s.lin ∧
+      d.ret ≠ .panic ∧ d.ret ≠ .hang) ∧
+    (∀ e ∈ s.lin, e.ret ≠ .panic ∧ e.ret ≠ .hang) ∧
+    (∃ chain pool, C06.Rep s.obj (seqRun sApply [] (s.lin.map (·.op))).1 chain pool) ∧
+    (okVals (seqRun sApply [] (s.lin.map (·.op))).2 ++ (seqRun sApply [] (s.lin.map (·.op))).1).Perm (pushed (s.lin.map (·.op))) := by
+  have hx := llqStackSys_excl pick
+  obtain ⟨hseq, _, hdone⟩ := C08_linearizable (llqStackSys pick) hx s h
+  obtain ⟨hr, spare, chain, pool, hrep, _⟩ := llq_seq llqOpS sApply spec_s pick (s.lin.map (·.op))
+  have e1 : (llqStackSys pick).apply = fun q op => C06.step q (llqOpS op) := rfl
+  have e2 : (llqStackSys pick).init = C06.initWith pick := rfl
+  rw [e1, e2] at hseq
+  rw [hseq] at hr hrep
+  simp only at hr hrep
+  have hlin : ∀ e ∈ s.lin, e.ret ≠ .panic ∧ e.ret ≠ .hang := by
+    intro e he
+    have : e.ret ∈ s.lin.map (·.ret) := List.mem_map.mpr ⟨e, he, rfl⟩
+    rw [hr] at this
+    obtain ⟨r, _, hre⟩ := List.mem_map.mp this
+    rw [← hre]; exact obsOfRet_ne r
+  refine ⟨hr, C08_lin_is_acquisition_order (llqStackSys pick) hx s h, ?_, hlin, ⟨chain, pool, hrep⟩, ?_⟩
+  · intro d hd
+    obtain ⟨a, b, c⟩ := hdone d hd
+    have := hlin _ c
+    exact ⟨a, b, c, this.1, this.2⟩
+  · simpa using stack_conservation (s.lin.map (·.op)) []
+
+/-- non-vacuity: three threads overlap on the pointer-level queue; the heap really is a linked structure (a
+    recycled node sits in the free list: `nodeCount = 1`), and the returns are the deque's -/
+example : (run (llqQueueSys (fun _ => 0)) (initState (llqQueueSys (fun _ => 0)))
+      [.inv 0 (.offer 7), .inv 1 .poll, .inv 2 (.put 8), .acq 1, .read 1, .commit 1, .rel 1,
+       .acq 2, .read 2, .commit 2, .rel 2, .acq 0, .read 0, .commit 0, .rel 0,
+       .inv 1 .take, .acq 1, .read 1, .commit 1]).map
+      (fun s => (s.done.map (·.ret), s.lin.map (·.ret), s.obj.count, s.obj.nodeCount, s.lock)) =
+    some ([.empty, .nil, .nil], [.empty, .nil, .nil, .ok 8], 1, 1, .excl 1) := by decide
+
+example : (run (llqStackSys (fun _ => 0)) (initState (llqStackSys (fun _ => 0)))
+      [.inv 0 (.push 1), .inv 1 (.push 2), .acq 1, .read 1, .commit 1, .rel 1, .acq 0, .read 0, .commit 0, .rel 0,
+       .inv 2 .pop, .acq 2, .read 2, .commit 2, .rel 2]).map (fun s => (s.done.map (·.ret), s.obj.count)) =
+    some ([.nil, .nil, .ok 1], 1) := by decide
+
+/-- the clause "no call returns panic" is not vacuous: the same lock protocol over the PRE-FIX LinkedListQueue
+    (`C06.stepF false`, all of its methods, C06's refutation history Offer, Offer, Shift, Pop, Shift executed
+    call by call under the exclusive lock) does return `panic` -/
+example : (run (⟨C06.init, C06.stepF false, fun _ => .excl⟩ : Sys C06.Q C06.Op C06.Obs)
+      (initState ⟨C06.init, C06.stepF false, fun _ => .excl⟩)
+      [.inv 0 (.offer 1), .acq 0, .read 0, .commit 0, .rel 0, .inv 1 (.offer 2), .acq 1, .read 1, .commit 1, .rel 1,
+       .inv 0 .shift, .acq 0, .read 0, .commit 0, .rel 0, .inv 1 .pop, .acq 1, .read 1, .commit 1, .rel 1,
+       .inv 2 .shift, .acq 2, .read 2, .commit 2, .rel 2]).map (fun s => s.done.map (·.ret)) =
+    some [.nil, .nil, .ok 1, .ok 2, .panic] := by decide
 
 /-! ### the pre-fix code is refuted -/
 
